@@ -84,6 +84,31 @@ def _lazy_cache_attr(ci: ClassInfo, attr: str) -> Optional[str]:
     return f"lazy default in getter {getter_sites[0][0].name}.{getter_sites[0][2]} guarded by `self.{attr} is None`"
 
 
+def _r4_setters_rebind(chk, repo):
+    """property setters of the experimental samplers RE-BIND the backing field: an in-place write (`self._scale[:] = v`, `self._f += v`) goes into the
+    object the field currently holds - which may be the configured initial value (`initial_scale`) and is the object every earlier `get_state()` payload
+    refers to - so `reinitialize()` no longer returns to the constructed configuration and saved states change after the fact"""
+    from ..alias import FnAlias
+    n, bad = 0, []
+    for ci in repo.classes_in("cuqi/experimental/mcmc/"):
+        for pname, p in ci.props.items():
+            if p.setter is None:
+                continue
+            n += 1
+            fa = FnAlias(p.setter)
+            for root, node, a, kind in fa.mutated_roots():
+                if root.startswith("self."):
+                    bad.append((ci, pname, a, root, kind))
+    for ci, pname, a, root, kind in bad:
+        chk.fail("C14-R4", f"{ci.qual}.@{pname}=/in-place:{root}", site(repo, a),
+                 f"the setter of `{pname}` writes into the object held in `{root}` ({kind}: `{unparse(a)[:60]}`) instead of re-binding the field: the configured "
+                 f"value and every state saved earlier share that object, so reinitialize() / set_state() no longer restore what was configured / saved", a)
+    if not bad:
+        chk.ok("C14-R4", "cuqi/experimental/mcmc/*/setters-rebind", "", f"{n} property setters, none writes into the object its field holds")
+    if n < 8:
+        raise AnchorError(f"{n} property setters found in the experimental samplers, 9 confirmed by hand")
+
+
 def run(chk, repo: Repo):
     chk.rule("C14-R1", "checkpoint payload (_STATE_KEYS ∪ _HISTORY_KEYS, property names mapped to backing fields) ⊇ "
                        "attributes written during the run and read before written by step (or by tune after step)", floor=12)
@@ -124,6 +149,9 @@ def run(chk, repo: Repo):
     _legacy(chk, repo)
     chk.rule("C14-R9", "both Gibbs samplers: every sweep is stored once; a continued run resumes from the last stored sample "
                        "(warm-up column only if no sample was ever stored); no effect outside the sweep loop [rule bodies shared with C09-R4]", floor=5)
+    _r4_setters_rebind(chk, repo)
+    from ..argswap import argswap_rule
+    argswap_rule(chk, repo, "C14-R9", ("cuqi/sampler/", "cuqi/experimental/mcmc/"))
     from . import c09
     from .common import shadow
     shadow(chk, "C09-R4", "C14-R9", lambda c: (c09._hybrid(c, repo), c09._legacy(c, repo)))
